@@ -25,6 +25,7 @@ def run(ck):
     r4_vk_identity(ck, w)
     r5_trailing_bytes(ck, w)
     r6_pi_count(ck, w)
+    r8_per_proof_shapes(ck, w)
     from ..engines import fsbind
     ck.rule('C03.R7', 'Fiat–Shamir statement binding: in the prover (compute_trace) and the verifier (parse_trace) the verifying-key identity, the committed '
                       'instances, the instance lengths and values are absorbed before the first challenge is squeezed')
@@ -405,3 +406,35 @@ def pi_count_exact(ck, w, rule):
                           f'public inputs recorded at key generation — instance rows no copy constraint touches are unconstrained, so a longer vector verifies',
                           hirq.fn_loc(f, x))
     ck.floor(rule, 'public-input count comparisons', n, 2)
+
+
+def r8_per_proof_shapes(ck, w):
+    """the per-proof slices of the statement have the same number of proofs"""
+    from ..core import peel, pat_bindings
+    from ..engines import taint
+    ck.rule('C03.R8', 'parse_trace receives two per-proof slices (committed instances, plain instances), derives the number of proofs from ONE of them and walks '
+                      'them with `zip`, which stops at the shorter: an escaping conditional must compare their lengths, otherwise a statement with surplus vectors '
+                      'on one side is accepted with the surplus silently ignored (and, the other way round, surplus proofs lose their opening queries)')
+    f = w.fn('midnight_proofs::plonk::verifier::parse_trace', required=False)
+    if f is None:
+        ck.bad('C03.R8', 'parse_trace:anchor', 'parse_trace not found (anchor)')
+        return
+    ids = {b['n']: b['i'] for p in f['params'] for b in pat_bindings(p)}
+    need = {ids.get('committed_instances'), ids.get('instances')}
+    ok = False
+    for n in walk(f['body']):
+        if n.get('k') == 'if' and taint.diverges(n['a']):
+            c = peel(n['c'])
+            if c.get('k') == 'bin' and c.get('op') == '!=':
+                sides = [peel(c['a']), peel(c['b'])]
+                roots = set()
+                for s_ in sides:
+                    if s_.get('k') == 'mcall' and s_.get('m') == 'len':
+                        r = peel(s_['recv'])
+                        if r.get('k') == 'local':
+                            roots.add(r['i'])
+                if None not in need and roots == need:
+                    ok = True
+    ck.record('C03.R8', 'parse_trace:same-number-of-proofs', ok, 'committed_instances.len() != instances.len() is refused',
+              'parse_trace never compares committed_instances.len() with instances.len(): the per-proof slices are zipped and the surplus of the longer one is ignored',
+              hirq.fn_loc(f))
